@@ -407,7 +407,24 @@ func trieGapsAtDepth[K kad.Key[K], D any](t *trie.Trie[bitstr.Key, D], depth int
 			continue
 		}
 		bstr := bitstr.Key(byte('0' + i))
-		if b := t.Branch(i); b == nil {
+		if b := t.Branch(i); (b == nil || b.IsLeaf()) && depth+1 < target.BitLen() {
+			// The trie ends above the target's depth: only the target itself
+			// must be covered, not the rest of this branch.
+			switch {
+			case b == nil || !b.HasKey():
+				gaps = append(gaps, target[depth:])
+			case IsBitstrPrefix(*b.Key(), target):
+				// The leaf covers the whole target.
+			case IsBitstrPrefix(target, *b.Key()):
+				siblingPrefixes := SiblingPrefixes(*b.Key())[len(target):]
+				sortBitstrKeysByOrder(siblingPrefixes, order)
+				for _, siblingPrefix := range siblingPrefixes {
+					gaps = append(gaps, siblingPrefix[depth:])
+				}
+			default:
+				gaps = append(gaps, target[depth:])
+			}
+		} else if b == nil {
 			gaps = append(gaps, bstr)
 		} else if b.IsLeaf() {
 			if b.HasKey() {
